@@ -462,7 +462,18 @@ func checkOptimize(c *Ctx, opt *ssa.Function) {
 	for _, s := range callsIn(opt, "math/rand.Seed") {
 		a := otb.T(s.Common().Args[0])
 		fine := a.contains(func(x *Term) bool { return x.isCall("(time.Time).UnixNano") }) && !a.contains(func(x *Term) bool { return x.isBin("/") || x.isBin(">>") })
-		c.check(fine, "GUARD", "SEED: nanosecond clock", s.Pos(), "rand.Seed(time.Now().UnixNano())", "the global source is re-seeded from "+short(a.String())+": calls within the same clock tick replay one random stream, so pooled draws are not proportional to the weights")
+		stSeed := holds
+		if !fine {
+			stSeed = broken
+			// a seed obtained some other way (helper, crypto/rand, ...) is not judged
+			coarse := a.contains(func(x *Term) bool {
+				return x.isCall("(time.Time).Unix") || x.isCall("(time.Time).UnixMilli") || x.isCall("(time.Time).Second") || x.Op == "const" || x.isBin("/") || x.isBin(">>")
+			})
+			if !coarse || len(opaqueParts(a, vocabOf("call[(time.Time).UnixNano](call[time.Now]())", "call[(time.Time).Unix](x)", "call[(time.Time).UTC](x)", "call[(time.Time).UnixMilli](x)"))) > 0 {
+				stSeed = unknown
+			}
+		}
+		c.judge(stSeed, "GUARD", "SEED: nanosecond clock", s.Pos(), "rand.Seed(time.Now().UnixNano())", "the global source is re-seeded from "+short(a.String())+": calls within the same clock tick replay one random stream, so pooled draws are not proportional to the weights")
 	}
 }
 
